@@ -84,7 +84,7 @@ _re_cur = re.compile(r"CURRENT-INPUT (\w+) idx=(\d+) hex=([0-9a-f]*)")
 
 def _repeats(run, exe, flags, hx):
     f = run.path("confirm-%d.hex" % (int(time.time() * 1e6) % 10**9))
-    open(f, "w").write(hx + "\n")
+    open(f, "w").write((hx + "\n") * 16)     # 16 times: the harness rotates the start alignment of its input block from call to call
     keep = []
     it = iter(flags)
     for x in it:
@@ -127,7 +127,7 @@ def _record_loads(run, exe, args, out, what, max_crashes=3, env=None, timeout=18
                 raise Infra("h_load ended abnormally twice at the same input index %s (%s): %s" % (idx, why, err[-1500:]))
             skip = int(idx)
             # report only what repeats when the single input is run again in isolation (same flags)
-            if len(hx) < 1190 and not _repeats(run, exe, [x for x in args if x.startswith("--") and x not in ("--skip",)], hx):
+            if len(hx) < 1190 and not _repeats(run, exe, list(args), hx):
                 run.notes.append("abnormal end (%s) on input %s did not repeat in isolation: not reported" % (why, hx[:80]))
                 crashes -= 1
                 nonrep += 1
